@@ -5,6 +5,7 @@ import (
 	"encoding/gob"
 	"encoding/json"
 	"fmt"
+	"io"
 	"os"
 	"path/filepath"
 	"regexp"
@@ -43,6 +44,9 @@ type c16Fields struct {
 }
 
 func c16Of(c *twig.CompiledTemplate) c16Fields {
+	if len(c.AST) > 1<<26 { // never the case for a generated record; do not copy gigabytes when a broken reader returns them
+		return c16Fields{c.Name, c.Source, fmt.Sprintf("<%d bytes>", len(c.AST)), c.LastModified, c.CompileTime}
+	}
 	return c16Fields{c.Name, c.Source, string(c.AST), c.LastModified, c.CompileTime}
 }
 
@@ -120,6 +124,7 @@ func c16Render(e *twig.Engine, name string, ctxJSON []byte) (o c16Out, pan inter
 //	render    - a source and a context: render from source vs compile -> serialise -> deserialise -> register
 //	            on a fresh engine (three routes incl. files) must print the same bytes, on five engine configurations
 func runC16(cases string, res *Result) {
+	twig.SetDebugWriter(io.Discard) // SetDebug(true) on one engine switches the package-wide logger on
 	dir := filepath.Join(filepath.Dir(cases), "files")
 	os.RemoveAll(dir)
 	if err := os.MkdirAll(dir, 0o755); err != nil {
@@ -297,6 +302,16 @@ func runC16(cases string, res *Result) {
 			res.Unmodelled++
 			if err == nil {
 				res.Hist["malformed:unmodelled-accepted-by-gob"]++
+				// gob is not modelled here, but one thing cannot come from gob: exactly the non-empty record
+				// the binary layout would give if the version byte were not looked at
+				if alt, _ := c["alt"].(bool); alt {
+					want := c16Fields{c.hexs("alt_name"), c.hexs("alt_src"), c.hexs("alt_ast"), 0, 0}
+					want.lm, _ = strconv.ParseInt(c.str("alt_lm"), 10, 64)
+					want.ct, _ = strconv.ParseInt(c.str("alt_ct"), 10, 64)
+					if c16Of(got) == want {
+						disagree("malformed/"+tag, c, "error (version byte is not 1)", "accepted: "+want.String(), "a stream with another version byte is read as the binary format")
+					}
+				}
 			}
 			return
 		}
